@@ -128,7 +128,10 @@ def aspect(prop, trace):
     if prop == "C11":
         return " ".join(e for e in evs if e.startswith(("A:", "C:", "H:"))) + " " + final_of(evs)[:5]
     if prop == "C17":
-        return " ".join(find(evs, "CORS")) + " " + route_class(evs)
+        # the preflight is answered by the CORS handler alone: a middleware, authenticator or operation
+        # handler event in the same trace is part of the aspect
+        others = [e.split("(")[0].split(":")[0] for e in evs if find(evs, "CORS") and not e.startswith(("CORS", "S:"))]
+        return " ".join(find(evs, "CORS")) + " " + route_class(evs) + (" +" + ",".join(others) if others else "")
     if prop == "C13":
         return "spec" if route_class(evs) == "spec" else "not-spec"
     if prop == "C14":
@@ -247,8 +250,9 @@ def ref_ok(prop, r):
             m = re.match(r"CORS\(([^;]*);([^)]*)\)", ce[0])
             rm = re.match(r"cors\(([^;]*);([^)]*)\)", route)
             hs = m.group(2).split(",") if m.group(2) else []
+            alone = all(e.startswith(("CORS", "S:")) for e in evs)  # no middleware / authenticator / handler around it
             return (m.group(1) == rm.group(1) and ",".join(sorted(hs)) == rm.group(2) and len(set(hs)) == len(hs)
-                    and len(ce) == 1 and len(find(evs, "CORSH(")) == 1 and final_of(evs).startswith("S:204"))
+                    and len(ce) == 1 and len(find(evs, "CORSH(")) == 1 and final_of(evs).startswith("S:204") and alone)
         return not find(evs, "CORS")
     if prop == "C13":
         return (rc == "spec") == (route == "spec")
